@@ -41,6 +41,11 @@ def configs():
         out.append({'name': 'luhn-%d' % n, 'algo': 'luhn', 'alphabet': alpha})
     out.append({'name': 'verhoeff', 'algo': 'verhoeff', 'alphabet': '0123456789'})
     out.append({'name': 'damm', 'algo': 'damm', 'alphabet': '0123456789'})
+    # the caller-supplied quasigroup of the module's own documentation (zero diagonal, totally anti-symmetric)
+    out.append({'name': 'damm-table', 'algo': 'damm', 'alphabet': '0123456789', 'kw': {'table': [
+        [0, 2, 3, 4, 5, 6, 7, 8, 9, 1], [2, 0, 4, 1, 7, 9, 5, 3, 8, 6], [3, 7, 0, 5, 2, 8, 1, 6, 4, 9], [4, 1, 8, 0, 6, 3, 9, 2, 7, 5],
+        [5, 6, 2, 9, 0, 7, 4, 1, 3, 8], [6, 9, 7, 3, 1, 0, 8, 5, 2, 4], [7, 5, 1, 8, 4, 2, 0, 9, 6, 3], [8, 4, 6, 2, 9, 5, 3, 0, 1, 7],
+        [9, 8, 5, 7, 3, 1, 6, 4, 0, 2], [1, 3, 9, 6, 8, 4, 2, 7, 5, 0]]}})
     out.append({'name': 'mod_11_2', 'algo': 'iso7064.mod_11_2', 'alphabet': '0123456789', 'check_alphabet': '0123456789X'})
     out.append({'name': 'mod_37_2', 'algo': 'iso7064.mod_37_2', 'alphabet': '0123456789ABCDEFGHIJKLMNOPQRSTUVWXYZ',
                 'check_alphabet': '0123456789ABCDEFGHIJKLMNOPQRSTUVWXYZ*'})
